@@ -74,3 +74,45 @@ package origins
 //@   pure
 //@   allocs <= 0
 //@   trusted TEMPORARY until L2 is built
+
+//@ func HostPattern.hostOnly
+//@   props C04 C05 C13 C15 C17
+//@   pure
+//@   allocs <= 0
+//@   requires hp != nil && (hp.Kind == 3 ==> len(hp.Value) >= 2)
+//@   ensures result === HostOnlyOf(hp.Value, hp.Kind)
+
+//@ func Pattern.IsDeemedInsecure
+//@   props C04 C05 C15 C17
+//@   pure
+//@   allocs <= 0
+//@   requires p != nil && (p.HostPattern.Kind == 3 ==> len(p.HostPattern.Value) >= 2)
+//@   ensures result == (p.Scheme != "https" && p.HostPattern.Kind != 2 && HostOnlyOf(p.HostPattern.Value, p.HostPattern.Kind) != "localhost")
+
+//@ func Pattern.HostIsEffectiveTLD
+//@   props C04 C05 C15 C17
+//@   pure
+//@   allocs <= 0
+//@   trusted publicsuffix.PublicSuffix is an uninterpreted dependency; IsETLD names its verdict on the host with one trailing dot trimmed
+//@   requires p != nil && (p.HostPattern.Kind == 3 ==> len(p.HostPattern.Value) >= 2)
+//@   ensures result1 == IsETLD(HostOnlyOf(p.HostPattern.Value, p.HostPattern.Kind))
+
+//@ func ParsePattern
+//@   props C01 C04 C05 C13 C15 C17
+//@   pure
+//@   trusted TEMPORARY until L2 is built
+//@   ensures result1 == nil ==> len(result0.HostPattern.Value) >= 1 && (result0.HostPattern.Kind == 3 ==> len(result0.HostPattern.Value) >= 3) && 0 <= result0.HostPattern.Kind && result0.HostPattern.Kind <= 3
+//@   ensures result1 != nil ==> dyntype(result1, "*cfgerrors.UnacceptableOriginPatternError") && payload(result1, "*cfgerrors.UnacceptableOriginPatternError") != nil && payload(result1, "*cfgerrors.UnacceptableOriginPatternError").Value === str
+
+//@ func Tree.Insert
+//@   props C01 C04 C05 C06 C15 C17
+//@   trusted TEMPORARY until L7 (in-place radix-tree update) is handled; see DESIGN C01
+//@   requires t != nil && p != nil && len(p.HostPattern.Value) >= 1
+//@   assigns heap("F!origins_node!suf")
+//@   assigns heap("F!origins_node!edges")
+//@   assigns heap("F!origins_node!children")
+//@   assigns heap("F!origins_node!schemes")
+//@   assigns heap("F!origins_node!ports")
+//@   assigns heap("E!Int")
+//@   assigns heap("E!Slice")
+//@   ensures !(t.root.schemes == nil && t.root.children == nil)
